@@ -101,6 +101,7 @@ func Run(src, engine string, render bool) *Result {
 		b := &Board{Path: path, Layout: "ok", Export: "skipped"}
 		res.Boards = append(res.Boards, b)
 		var d *d2target.Diagram
+		var pre map[string][2]float64
 		out := hl.Guard(func() {
 			if err := g.ApplyTheme(d2themescatalog.NeutralDefault.ID); err != nil {
 				b.Layout = "error: theme: " + firstLine(err.Error())
@@ -112,6 +113,10 @@ func Run(src, engine string, render bool) *Result {
 					return
 				}
 				b.Before = Structure(g)
+				pre = map[string][2]float64{}
+				for _, o := range g.Objects {
+					pre[o.AbsID()] = [2]float64{o.Width, o.Height}
+				}
 				core := coreLayout(engine)
 				wrapped := func(ctx context.Context, g *d2graph.Graph) error {
 					before := Structure(g)
@@ -134,7 +139,7 @@ func Run(src, engine string, render bool) *Result {
 				b.Before = Structure(g)
 				b.After = Structure(g)
 			}
-			b.Geo = Geometry(g)
+			b.Geo = Geometry(g, pre)
 		})
 		if out != "ok" {
 			b.Layout = out
@@ -290,7 +295,7 @@ func strp(p *string) string {
 }
 
 // Geometry — laid-out geometry of a board with exact rationals.
-func Geometry(g *d2graph.Graph) M {
+func Geometry(g *d2graph.Graph, pre map[string][2]float64) M {
 	objs := []any{}
 	for _, o := range g.Objects {
 		m := M{"id": o.AbsID(), "shape": strings.ToLower(o.Shape.Value)}
@@ -305,6 +310,13 @@ func Geometry(g *d2graph.Graph) M {
 			continue
 		}
 		m["box"] = box(o.TopLeft.X, o.TopLeft.Y, o.Width, o.Height)
+		if d, ok := pre[o.AbsID()]; ok {
+			m["preW"] = hl.Rat(d[0])
+			m["preH"] = hl.Rat(d[1])
+		}
+		m["seqGroup"] = o.IsSequenceDiagramGroup()
+		m["seqNote"] = o.IsSequenceDiagramNote()
+		m["line"] = earliestLine(o.References)
 		m["labelPos"] = strp(o.LabelPosition)
 		m["iconPos"] = strp(o.IconPosition)
 		m["hasLabel"] = o.HasLabel()
@@ -337,7 +349,9 @@ func Geometry(g *d2graph.Graph) M {
 		if o.HasIcon() && o.IconPosition != nil {
 			pos := label.FromString(*o.IconPosition)
 			if pos.IsOutside() {
-				sz := float64(d2target.MAX_ICON_SIZE)
+				// the icon as it is drawn (d2svg uses GetIconSize); TraceToShape uses this size for a destination
+				// and MAX_ICON_SIZE for a source
+				sz := float64(d2target.GetIconSize(o.Box, pos.String()))
 				tl := pos.GetPointOnBox(o.Box, label.PADDING, sz, sz)
 				m["oicon"] = box(tl.X, tl.Y, sz, sz)
 			}
@@ -353,6 +367,7 @@ func Geometry(g *d2graph.Graph) M {
 		m["labelH"] = e.LabelDimensions.Height
 		m["labelW"] = e.LabelDimensions.Width
 		m["route"] = pts(e.Route)
+		m["line"] = earliestEdgeLine(e)
 		edges = append(edges, m)
 	}
 	rk := []any{}
@@ -433,4 +448,35 @@ func GeoCase(res *Result) M {
 		c["triv"] = true
 	}
 	return c
+}
+
+// earliestLine / earliestEdgeLine: the "vertical index" the sequence layout orders by (getObjEarliestLineNum /
+// getEdgeEarliestLineNum of d2sequence, which are unexported): smallest source line of a non-glob reference.
+func earliestLine(refs []d2graph.Reference) int {
+	min := int(1<<31 - 1)
+	for _, ref := range refs {
+		if ref.MapKey == nil || ref.Key == nil || ref.Key.HasGlob() {
+			continue
+		}
+		if l := ref.MapKey.Range.Start.Line; l < min {
+			min = l
+		}
+	}
+	return min
+}
+
+func earliestEdgeLine(e *d2graph.Edge) int {
+	min := int(1<<31 - 1)
+	for _, ref := range e.References {
+		if ref.MapKey == nil || ref.Edge == nil {
+			continue
+		}
+		if ref.Edge.Src.HasGlob() || ref.Edge.Dst.HasGlob() {
+			continue
+		}
+		if l := ref.MapKey.Range.Start.Line; l < min {
+			min = l
+		}
+	}
+	return min
 }
